@@ -1,0 +1,52 @@
+//go:build verif
+
+package wait
+
+import "time"
+
+// VerifFastBackoffState is the unexported state of a manager built by NewFastBackoffManager,
+// instants as Unix nanoseconds (the *Zero flags report the zero time.Time).
+type VerifFastBackoffState struct {
+	LastCalled              int64
+	LastCalledZero          bool
+	ConsecutiveErrCount     int
+	FastRetryCutoff         int64
+	FastRetryCutoffZero     bool
+	CountsInFastRetryWindow int
+}
+
+// VerifFastBackoffStateOf reads the state; ok is false if b is not a *fastBackoffImpl.
+func VerifFastBackoffStateOf(b BackoffManager) (st VerifFastBackoffState, ok bool) {
+	f, ok := b.(*fastBackoffImpl)
+	if !ok {
+		return st, false
+	}
+	st.LastCalledZero = f.lastCalledTime.IsZero()
+	if !st.LastCalledZero {
+		st.LastCalled = f.lastCalledTime.UnixNano()
+	}
+	st.ConsecutiveErrCount = f.consecutiveErrCount
+	st.FastRetryCutoffZero = f.fastRetryCutoffTime.IsZero()
+	if !st.FastRetryCutoffZero {
+		st.FastRetryCutoff = f.fastRetryCutoffTime.UnixNano()
+	}
+	st.CountsInFastRetryWindow = f.countsInFastRetryWindow
+	return st, true
+}
+
+// VerifFastBackoffAdvance makes the manager see the clock d later than it is: every stored
+// (non-zero) instant is moved back by d.  fastBackoffImpl only ever compares stored instants
+// with time.Now(), so this is the same as advancing the clock.
+func VerifFastBackoffAdvance(b BackoffManager, d time.Duration) bool {
+	f, ok := b.(*fastBackoffImpl)
+	if !ok {
+		return false
+	}
+	if !f.lastCalledTime.IsZero() {
+		f.lastCalledTime = f.lastCalledTime.Add(-d)
+	}
+	if !f.fastRetryCutoffTime.IsZero() {
+		f.fastRetryCutoffTime = f.fastRetryCutoffTime.Add(-d)
+	}
+	return true
+}
